@@ -40,7 +40,10 @@ from ..utils import (
 )
 
 
-MAX_QUEUED_PONGS = 32
+# Pongs wait in a queue (so that the reading need not wait for a client
+# that does not take them). No more than this many wait, which is more
+# pings than fit in anything read at once.
+MAX_QUEUED_PONGS = 2**16 // 6
 
 
 class ASGIWebsocketState(Enum):
@@ -347,6 +350,9 @@ class WSStream:
                 raise UnexpectedMessageError(self.state, message["type"])
 
     async def _handle_events(self) -> None:
+        # Pongs are only ever dropped if those for earlier data are yet
+        # to be sent, i.e. the client is not taking them.
+        behind = len(self.pongs) > 0
         for event in self.connection.events():
             if self.closed:
                 # Closed whilst handling an earlier event (e.g. a pong
@@ -375,7 +381,7 @@ class WSStream:
                 # stop the reading of what the client sends meanwhile,
                 # e.g. the very credit that is being waited for.
                 self.pongs.append(event.response())
-                if len(self.pongs) > MAX_QUEUED_PONGS:
+                if behind and len(self.pongs) > MAX_QUEUED_PONGS:
                     self.pongs.pop(0)  # Only the most recent pings need an answer
                 if not self.sending_pongs:
                     self.sending_pongs = True
